@@ -166,4 +166,13 @@ theorem C04_text_content_delivered_behind_cdata (inner t : List Gomjml.Amp.B)
     Gomjml.Lines.dec (Gomjml.Lines.wrapInner inner) = some t :=
   Gomjml.Lines.wrapInner_delivered_cdata inner t h ht
 
+/-- **mj-text, from the source to the inner HTML**: for content that does not begin with a CDATA section and has no no-break
+    space, what the component writes keeps every byte of the author's content that is not white space, in order — the pre-pass
+    (void tags respelled, `]]>` escaped), the XML layer's decoding and the white-space collapsing composed -/
+theorem C04_text_end_to_end (inner : List Gomjml.Amp.B)
+    (h : Gomjml.Passes.cdStart.isPrefixOf (inner.dropWhile Gomjml.Passes.isWs) = false) (hc : ∀ b ∈ inner, b ≠ 0xC2) :
+    ∃ x, Gomjml.Passes.cdataDecode (Gomjml.Lines.wrapInner inner) = some x ∧
+      Gomjml.TextFlow.ink (Gomjml.TextFlow.textInner x) = Gomjml.TextFlow.ink inner :=
+  Gomjml.Lines.text_end_to_end inner h hc
+
 end Gomjml.Props.C04
